@@ -25,7 +25,9 @@ RULE = ("SVC: every schedule (tuple of 1+epochs permutations) enumerated by TLC 
         "random two-class integer data (n 4..40 quick / 4..80 thorough, 1..5 features, separable / overlapping / "
         "duplicated rows of both classes, C in 1/8..100, epochs 1..4, tol 2^-7..2^-13, 4 kernels) with injected "
         "random schedules and every 25th fit left to the unseeded RNG.  SVR: seeded random regression sets "
-        "(n 4..30 / 4..60, eps in {0, 0.1, 1/8, 1/4, 1/2}); every 6th SVR fit has its targets confined to a band that "
+        "(n 4..30 / 4..60, eps in {0, 0.1, 1/8, 1/4, 1/2}); a size ladder (training sets of 65..257 rows with most rows support vectors; ONE decision_function / predict "
+        "call on 63..1025 and 3000 query rows compared with the same rows evaluated in blocks); every 5th fit goes "
+        "through the api traits (SupervisedEstimator::fit, Predictor::predict); every 6th SVR fit has its targets confined to a band that "
         "is narrow relative to eps (constant, range <= eps, eps < range <= 2 eps skewed with 1-2 outliers at one "
         "end, exactly 2 eps, 2 eps + one step, eps = 0), for all kernels.  Kernels: exhaustive pairs over {-2..2}^2 for 15 kernel "
         "settings (polynomial degrees 1, 2, 3 and the fractional 1/2, 3/2, 5/2, 1/4, 3/4, 5/4), random vectors, Gram "
@@ -35,8 +37,11 @@ RULE = ("SVC: every schedule (tuple of 1+epochs permutations) enumerated by TLC 
         "objects (data, labels, C, kernel, epochs, tol, schedule) among the non-trivial fits")
 
 
+FIT_EVENTS = ("SvcFit", "SvrFit", "SvcBatch", "SvrBatch")
+
+
 def at_bound_and_inside(e):
-    if e.get("status") != "ok" or e["ev"] not in ("SvcFit", "SvrFit"):
+    if e.get("status") != "ok" or e["ev"] not in FIT_EVENTS:
         return False
     o = e["out"]
     if not (o.get("finite") and o.get("wok")):
@@ -51,7 +56,7 @@ def key_of(e, clause):
     i = e.get("in", {})
     k = i.get("kernel", {})
     kn = k.get("name", "?")
-    if e["ev"] in ("SvcFit", "SvrFit"):
+    if e["ev"] in FIT_EVENTS:
         x = i.get("X", [])
         dup = len(set(map(tuple, x))) < len(x)
         feats = []
@@ -59,6 +64,12 @@ def key_of(e, clause):
             feats.append("duplicate rows")
         if e["ev"] == "SvcFit":
             feats.append("src=%s" % e.get("src"))
+        if "batch" in i:
+            feats.append("batch>256" if len(i["batch"]["rows"]) > 256 else "batch<=256")
+        if len(x) >= 91:
+            feats.append("n>=91")
+        if i.get("api"):
+            feats.append("api traits")
         if e.get("status") != "ok":
             feats.append("status=%s" % e.get("status"))
         if kn == "poly" and k.get("dd", 1) != 1:
@@ -72,11 +83,11 @@ def key_of(e, clause):
 
 def describe(e, clause):
     i = e.get("in", {})
-    if e["ev"] == "SvcFit":
+    if e["ev"] in ("SvcFit", "SvcBatch"):
         return ("SVC clause %s fails: n=%d kernel=%s C=%s/%s epochs=%s schedule=%s status=%s"
                 % (clause, len(i["X"]), i["kernel"]["name"], i["Cn"], i["Cd"], i["epochs"],
                    json.dumps(i["sched"]) if len(i["X"]) <= 6 else "(%d orders)" % len(i["sched"]), e["status"]))
-    if e["ev"] == "SvrFit":
+    if e["ev"] in ("SvrFit", "SvrBatch"):
         return ("SVR clause %s fails: n=%d kernel=%s C=%s/%s eps16=%s tol16=%s status=%s"
                 % (clause, len(i["X"]), i["kernel"]["name"], i["Cn"], i["Cd"], i["eps16"], i["tol16"], e["status"]))
     return "kernel clause %s fails on %s" % (clause, json.dumps(i)[:300])
@@ -121,6 +132,8 @@ MUST_HIT = ("SvcFit", "SvcSched", "SvcRand", "SvcUnseeded", "Svc_linear", "Svc_r
             "K_linear", "K_rbf", "K_poly", "K_sigmoid", "RbfTaylor", "SigTaylor",
             "KRoot2", "KRoot4", "KRootUndefined", "FitRootClosed",
             "SvrNarrowBand", "SvrBandSkewed", "SvrConstantTargets", "SvrNoSv", "SvrNoSvKKT",
+            "SvcApi", "SvrApi", "SvcLarge", "SvrLargeDense",
+            "SvcBatch", "SvcBatchOver256", "SvcBatchOver1024", "SvrBatch", "SvrBatchOver256", "SvrBatchOver1024",
             "Gram_linear", "Gram_rbf", "Gram_sigmoid", "RbfFunctional", "SigAddition", "GramSingular")
 
 
@@ -171,6 +184,8 @@ def run(ctx):
     hits, bads = validate(ctx, files, MUST_HIT)
     if hits.get("BadSchedule", 0):
         raise vlib.ToolError("harness injected %d malformed schedules" % hits["BadSchedule"])
+    if hits.get("BadBatch", 0):
+        raise vlib.ToolError("harness emitted %d malformed batch events" % hits["BadBatch"])
     if hits.get("Unknown", 0):
         raise vlib.ToolError("unknown events in the trace")
     # the model says the trainer draws exactly 1 + epochs orders; a different consumption of the
@@ -181,7 +196,7 @@ def run(ctx):
     for (e, clause) in bads:
         ctx.report(key_of(e, clause), describe(e, clause), [e])
     ctx.evaluations = len(events)
-    ctx.traces = sum(1 for e in events if e["ev"] in ("SvcFit", "SvrFit"))
+    ctx.traces = sum(1 for e in events if e["ev"] in FIT_EVENTS)
     nt = set()
     for e in events:
         if at_bound_and_inside(e):
